@@ -71,11 +71,14 @@ copyreg.pickle(types.MethodType, _pickle_method, _unpickle_method)
 ###################################################################
 
 def ignore_aliases(data):
+    # scalars have no len(), so test for them first; otherwise the
+    # TypeError below hides this case and equal numbers that happen to be
+    # the same python object are written as yaml anchors and aliases
+    if data is None or isinstance(data, (str, bool, int, float)):
+        return True
     try:
         # numpy arrays no longer want to be compared to None, so instead check for a none by looking for if it is an instance of NoneType
-        if data is None or len(data) == 0:
-            return True
-        if isinstance(data, (str, bool, int, float)):
+        if len(data) == 0:
             return True
     except TypeError as e:
         pass
